@@ -154,11 +154,19 @@ def t_to(task):
                 g = L.to_float(t, rnd='n')
                 if g != w or math.copysign(1, g) != math.copysign(1, w):
                     acc.violation(['to_float', t], 'to_float(%s) = %r want %r' % (t, g, w), kind='to_float', sub=bool(E < -1022), over=bool(E >= 1023))
-                if idx % 7 == 0:
+                if idx % 7 == 0 or E >= 1020:
                     x = mp.make_mpf(t)
-                    g2 = float(x)
                     z = mp.make_mpc((t, mk(1 - sg, m, E - b + 1)))
-                    g3 = complex(z)
+                    try:
+                        g2 = float(x)
+                        g3 = complex(z)
+                        g4 = complex(x)
+                    except Exception as e:
+                        acc.evals += 1
+                        acc.violation(['float()-raise', t], 'float()/complex() of %s raised %s (the value %s)' % (t, type(e).__name__, 'overflows to inf' if math.isinf(w) else 'is finite'), kind='float()', sub=False, over=bool(E >= 1023))
+                        continue
+                    if g4 != complex(w, 0.0):
+                        acc.violation(['complex(mpf)', t], 'complex(mpf %s) = %r want %r' % (t, g4, complex(w, 0.0)), kind='float()', sub=False, over=bool(E >= 1023))
                     acc.evals += 2
                     if g2 != w or g3 != complex(w, -w):
                         acc.violation(['float()', t], 'float/complex of %s = %r / %r want %r' % (t, g2, g3, w), kind='float()', sub=bool(E < -1022), over=bool(E >= 1023))
